@@ -358,20 +358,119 @@ def run(ck):
     for A in real_fmts:
         unary_cases(A)
         membership1(A)
-    # from_format itself: every value of the grid the concrete format represents is a member of its abstraction
+    # from_format itself, for EVERY context family: every value of a small format is a member of its abstraction.
+    # Encodable families (Fixed signed/unsigned, SMFixed, Exp, EFloat with each NaN kind, IEEE): all bit patterns are
+    # decoded (exhaustive); ordinal families (MPS/MPB float, MP/MPB fixed, asymmetric bounds included): a window of
+    # ordinals around zero and below the extremes plus min/max; every family: the value grid filtered by representable_in.
+    from fpy2.number import EFloatNanKind
+    fam = []
+    for signed in (False, True):
+        for scale in (-3, 0, 2):
+            for nb in (2, 3, 5):
+                fam.append(('Fixed', fp.FixedContext(signed, scale, nb)))
+    for scale in (-2, 0, 1):
+        for nb in (2, 4):
+            fam.append(('SMFixed', fp.SMFixedContext(scale, nb)))
+    for nb in (1, 2, 4, 5):
+        for off in (-3, 0, 2):
+            fam.append(('Exp', fp.ExpContext(nb, off)))
+    for es, nb in ((2, 4), (2, 5), (3, 6), (4, 8), (1, 3)):
+        for inf_ in (False, True):
+            for nk in EFloatNanKind:
+                for off in (0, 1, -2):
+                    try:
+                        fam.append(('EFloat', fp.EFloatContext(es, nb, inf_, nk, off)))
+                    except Exception:  # noqa  (parameter combination the constructor rejects)
+                        pass
+    for es, nb in ((2, 4), (3, 6), (4, 8), (5, 16)):
+        fam.append(('IEEE', fp.IEEEContext(es, nb)))
+    for p_ in (1, 2, 4):
+        fam.append(('MPFloat', fp.MPFloatContext(p_)))
+        for emin in (-3, 0, 2):
+            fam.append(('MPSFloat', fp.MPSFloatContext(p_, emin)))
+            for mx, ng in ((RealFloat(False, 0, 6), None), (RealFloat(False, 1, 5), RealFloat(True, -1, 3)), (RealFloat(False, -2, 7), RealFloat(True, 2, 3))):
+                try:
+                    fam.append(('MPBFloat', fp.MPBFloatContext(p_, emin, mx, neg_maxval=ng)))
+                except Exception:  # noqa
+                    pass
+    for nmin in (-4, -1, 2):
+        fam.append(('MPFixed', fp.MPFixedContext(nmin)))
+        for mx, ng in ((RealFloat(False, nmin + 1, 9), None), (RealFloat(False, nmin + 1, 5), RealFloat(True, nmin + 2, 7)),
+                       (RealFloat(False, nmin + 3, 1), RealFloat(False, 0, 0))):
+            for nz in (True, False):
+                try:
+                    fam.append(('MPBFixed', fp.MPBFixedContext(nmin, mx, neg_maxval=ng, enable_neg_zero=nz)))
+                except Exception:  # noqa
+                    pass
+    fam += [('Real', fp.REAL), ('INTEGER', fp.INTEGER)]
     ff = 0
-    for c, A in zip(ctxs, real_fmts):
+    ffam = {}
+
+    def ff_check(kind, c, F, A, v, how):
+        nonlocal ff
+        ff += 1
+        ffam[kind] = ffam.get(kind, 0) + 1
+        why = why_not_member(A, v)
+        if why:
+            ck.violation('a value of a Format is not a member of AbstractFormat.from_format(Format)',
+                         {'family': kind, 'context': repr(c), 'format': repr(F), 'value': repr(v), 'abstract': str(A), 'why': why,
+                          'value_obtained_by': how})
+
+    for kind, c in fam:
         F = c.format()
+        try:
+            A = AbstractFormat.from_format(F)
+        except Exception as e:  # noqa
+            ck.count(f'from_format: {kind} not abstractable ({type(e).__name__})')
+            continue
+        nbits = getattr(F, 'nbits', None) or getattr(c, 'nbits', None)
+        if hasattr(c, 'decode') and isinstance(nbits, int) and nbits <= 10:
+            for i in range(2 ** nbits):
+                try:
+                    v = c.decode(i)
+                except Exception:  # noqa
+                    continue
+                ff_check(kind, c, F, A, v, f'decode({i})')
+        elif hasattr(c, 'from_ordinal'):
+            ords = set(range(-40, 41))
+            for ext in ('maxval', 'minval'):
+                for sgn in (False, True):
+                    try:
+                        m = getattr(c, ext)(sgn)
+                        if F.representable_in(m):       # (a constructor may accept a bound its own format cannot represent)
+                            ff_check(kind, c, F, A, m, f'{ext}({sgn})')
+                        o = c.to_ordinal(m)
+                        ords |= set(range(o - 6, o + 7))
+                    except Exception:  # noqa
+                        pass
+            for o in sorted(ords):
+                try:
+                    v = c.from_ordinal(o)
+                except Exception:  # noqa
+                    continue
+                try:
+                    if not F.representable_in(v):
+                        continue
+                except Exception:  # noqa
+                    continue
+                ff_check(kind, c, F, A, v, f'from_ordinal({o})')
         for v in vals:
             try:
                 rep = F.representable_in(v)
             except Exception:  # noqa
                 continue
-            ff += 1
-            if rep and why_not_member(A, v):
-                ck.violation('a value representable in a Format is not a member of AbstractFormat.from_format(Format)',
-                             {'format': repr(F), 'value': str(v), 'abstract': str(A), 'why': why_not_member(A, v)})
-    ck.count('from_format membership', ff)
+            if rep:
+                ff_check(kind, c, F, A, v, 'representable_in(grid value)')
+    for c, A in zip(ctxs, real_fmts):
+        F = c.format()
+        for v in vals:
+            try:
+                if F.representable_in(v):
+                    ff_check('named', c, F, A, v, 'representable_in(grid value)')
+            except Exception:  # noqa
+                continue
+    ck.count('from_format membership (all values of small formats of every family)', ff)
+    ck.extra['from_format_values_by_family'] = ffam
     ck.evaluations += ff
 
     # 5. harness-side membership vs the proved-sound executable `mem`; exact ops vs the IEEE model
